@@ -71,6 +71,8 @@ func verifC16Content(label string) []byte {
 		return oracle.LCG(102, 700)
 	case "Z":
 		return oracle.LCG(103, 300)
+	case "B":
+		return oracle.LCG(105, 1200) // larger than the pack size: a pack of its own, uploaded at once
 	}
 	return oracle.LCG(104, 50)
 }
@@ -124,7 +126,12 @@ func TestVerif_C16(t *testing.T) {
 		"xy-xz":   {"S1": {{"X", D}, {"Y", D}}, "S2": {{"X", D}, {"Z", D}}},
 		"tree-xx": {"S1": {{"X", T}, {"Z", D}}, "S2": {{"X", T}, {"X", D}}},
 	}
-	names := []string{"xx", "xy-xz", "tree-xx"}
+	// "+bg": the same program with the lock acquisitions of restic's own goroutines (pack uploader, index
+	// bookkeeping after an upload) as scheduling points too, one backend connection
+	// (B fills a pack by itself, so its pack is uploaded and registered while the other saver is still active)
+	progs["bb+bg"] = map[string][]verifC16Save{"S1": {{"B", D}}, "S2": {{"B", D}}}
+	progs["xb-by+bg"] = map[string][]verifC16Save{"S1": {{"X", D}, {"B", D}}, "S2": {{"B", D}, {"Y", D}}}
+	names := []string{"xx", "xy-xz", "tree-xx", "bb+bg", "xb-by+bg"}
 	if r.Thorough() {
 		progs["three"] = map[string][]verifC16Save{"S1": {{"X", D}, {"Y", D}}, "S2": {{"Y", D}, {"X", D}}, "S3": {{"X", D}, {"Z", D}}}
 		names = append(names, "three")
@@ -138,7 +145,11 @@ func TestVerif_C16(t *testing.T) {
 				x.Data = st
 				st.restore = detrand.Install(5)
 				armed := false
-				be := &gatebe.Backend{S: st.store, Proc: "up", Conns: 2, AtomicReplace: true, X: func() *xplore.Exec {
+				conns := uint(2)
+				if strings.HasSuffix(name, "+bg") {
+					conns = 1
+				}
+				be := &gatebe.Backend{S: st.store, Proc: "up", Conns: conns, AtomicReplace: true, X: func() *xplore.Exec {
 					if armed {
 						return x
 					}
@@ -196,6 +207,9 @@ func TestVerif_C16(t *testing.T) {
 		check := func(x *xplore.Exec) {
 			st := x.Data.(*verifC16Exec)
 			st.restore()
+			if os.Getenv("VERIF_DEBUG_TRACE") != "" {
+				fmt.Fprintf(os.Stderr, "TRACE %s: %s\n", name, strings.Join(x.Labels, " > "))
+			}
 			key := strings.Join(x.Trace, ">")
 			r.State(key)
 			if st.raced {
@@ -283,7 +297,7 @@ func TestVerif_C16(t *testing.T) {
 				r.Sample(map[string]any{"scenario": name, "events": x.Labels[:n], "known_flags": fmt.Sprint(st.results)})
 			}
 		}
-		stt := vx.Explore(r, t, name, sc, xplore.Options{Policy: xplore.Preempt, Bound: bound, LockPoints: true, MaxSteps: 500}, check)
+		stt := vx.Explore(r, t, name, sc, xplore.Options{Policy: xplore.Preempt, Bound: bound, LockPoints: true, LockPointsAll: strings.HasSuffix(name, "+bg"), MaxSteps: 800}, check)
 		r.Note("%s: execs(this shard)=%d", name, stt.Execs)
 	}
 	r.Extra("preemption_bound", bound)
